@@ -19,13 +19,14 @@ WITNESS = {
     "matches": ("src/schema/mod.rs", "every schema type x 14 representative values (vector lengths 0..3)"),
     "codegen_guard": ("src/code_generator/mod.rs", "every plan tree of depth <= 2 over the 10 constructible node kinds (Union of 2)"),
     # always-run bounded stand-ins for functions that are outside both verifiers' reach
-    "standin_hash_index": ("src/hash_index.rs", "every history of <= 5 insert/remove/rebuild operations over 4 tuples, every probe key"),
+    "standin_hash_index": ("src/hash_index.rs", "every history of <= 5 insert/remove/rebuild operations over 4 tuples, every probe key; growth to 450 keys for 5 creation sizes"),
     "standin_validator": ("src/schema/validator.rs", "batches of 1..1000 tuples x 3 columns, <= 1 bad tuple (8 kinds) at first/middle/last position"),
     "standin_pagination": ("src/protocol/handler.rs", "pagination: len <= 6, limit/offset in {None,0..8}; sort: <= 4 rows from 11 mixed-kind values, both directions"),
     "standin_workers": ("src/code_generator/mod.rs", "20 programs covering every operator class x workers {2,3,4,8} vs 1 worker, 42-edge graph"),
     "standin_value_laws": ("src/value/mod.rs", "all pairs and triples of ~85 representative values (strings <= 41 chars, vectors <= 33 elements) and ~100 tuples of length <= 2"),
     "standin_rewrites": ("src/optimizer/mod.rs", "26 programs x 7 optimizer configurations x 4 engine instances, 4 small relations"),
     "standin_value_roundtrip": ("src/storage_engine/mod.rs", "14 relations (one per value kind, Nulls in typed columns, vectors, 4 mixed-kind) x {WAL replay, save + restart}"),
+    "standin_pagination_e2e": ("src/protocol/handler.rs", "Handler::query_program on 10 rows: sort {none,asc,desc} x limit {1,3,4,10,15} x offset {absent,0,2,3,9,12}"),
     "standin_delete": ("src/storage_engine/mod.rs", "relations of 0..300 tuples x 7 delete batches mixing present/absent/repeated tuples"),
     "standin_histories_clean": ("src/storage_engine/mod.rs", "every clean insert/delete history of length <= 5 over 2 tuples, save, restart"),
     "standin_histories_dirty": ("src/storage_engine/mod.rs", "every history of length <= 3 over 2 tuples with a re-insert or an absent delete, save, restart"),
